@@ -101,7 +101,8 @@ def check_fixed(run, prog, n, signed, pre, post, where):
 def _check_fixed(run, prog, n, signed, pre, post, where, lo, hi, half):
     it = Interp(prog)
     # the value is any integer that fits the field: its range is the scenario's premise
-    v = Sym('v', ty='int', not_none=True, key=('v',), lo=lo, hi=hi)
+    # (a range of one value - the halves of a 1-bit signed field - is that constant)
+    v = Sym('v', ty='int', not_none=True, key=('v',), lo=lo, hi=hi) if lo != hi else K(lo)
     b = builder(it)
     kind = 'int' if signed else 'uint'
     cons = f'Builder.store_{kind}/Slice.load_{kind}'
@@ -115,7 +116,11 @@ def _check_fixed(run, prog, n, signed, pre, post, where, lo, hi, half):
     if post:
         call(it, b, 'store_bits', cm.data_bits(post, 'post'))
     segs = [s for s in segs_of(b) if not (s.kind == '?')]
-    ok = len(segs) == 1 and field_is(segs[0], n, v, signed)
+    if isinstance(v, K):
+        image = format(v.v & ((1 << n) - 1), f'0{n}b')
+        ok = ''.join(s_.val for s_ in segs if s_.kind == 'k') == image and all(s_.kind == 'k' for s_ in segs)
+    else:
+        ok = len(segs) == 1 and field_is(segs[0], n, v, signed)
     if not ok:
         run.fail('D1', f'Builder.store_{kind}', f'store_{kind}(v, {n}) wrote {segs_of(b)} - expected one {n}-bit {"signed" if signed else "unsigned"} big-endian field holding v unmodified', where)
         return
